@@ -351,6 +351,32 @@ class CHECK(vlib.Check):
                 if len(b) >= 16:
                     c = b[:8] + w32(ne) + w32(nl) + b[16:]
                     add("pair:nentries-namelen", rng.choice(C3) + c.hex())
+        # ---- 3c. the tail of a variable-sized field: n items claimed, the first n-1 well formed, r bytes of the field left for
+        #          the last one (r in 0..5, so its 4-byte size word does or does not fit), boundary values in that size word.
+        #          A bounds test written as a subtraction (size <= left-4) wraps exactly here.
+        tails = []
+        for tcn, tcv in [("CSTR", TC["CSTR"]), ("RAWT", TC["RAWT"]), ("CUST", tcode(b"zzzz"))]:
+            for n in (1, 2, 3, 4):
+                for r in (0, 1, 2, 3, 4, 5):
+                    for layout in ("last", "followed"):
+                        tails.append((tcn, tcv, n, r, layout))
+        must = [("RAWT", TC["RAWT"], 2, 3, "last"), ("CSTR", TC["CSTR"], 2, 3, "last"), ("RAWT", TC["RAWT"], 1, 0, "last"), ("RAWT", TC["RAWT"], 3, 1, "followed")]
+        for (tcn, tcv, n, r, layout) in must + some(tails, 40 if not big else len(tails)):
+            good = b""
+            for j in range(n - 1):
+                it = rand_bytes(rng, rng.choice([0, 1, 4, 4, 7])).replace(b"\0", b"x")
+                if tcn == "CSTR":
+                    it += b"\0"
+                good += w32(len(it)) + it
+            data = rand_bytes(rng, rng.choice([0, 0, 1, 4, 8]))
+            trailer = b"" if layout == "last" else w32(2) + b"z\0" + w32(TC["LONG"]) + w32(4) + w32(7)
+            pre = w32(PM) + w32(1) + w32(1 if layout == "last" else 2) + w32(2) + b"f\0" + w32(tcv) + w32(4 + len(good) + r) + w32(n) + good
+            rem = len(data) + len(trailer)
+            lasts = [0, 1, (r - 4) & 0xFFFFFFFF, r, 0x7FFFFFFF, 0x80000000, rem, rem + 1, len(data), len(data) + 1] + list(range(0xFFFFFFF8, 0x100000000))
+            for lv in (lasts if big else [rem + 1, 0xFFFFFFFF, 0x7FFFFFFF] + some(lasts, 3)):
+                b = pre + w32(lv) + data + trailer
+                for t in C3:
+                    add("tail:" + tcn, t + b.hex())
         # ---- 4. bit flips, splices, random bytes
         for e in encs[: (40 if not big else 300)]:
             b = bytearray(e.b)
